@@ -22,7 +22,7 @@ import sys
 
 from common import KERNEL_TB, REPO, VERIF, Driver, Report, build_driver, check_props, coq_make, known_findings, regen_all, scan_forbidden
 
-SI_DRIVER = ("sidriver", "ExtractSi", ["simodel"], ["Model/SI.vo", "Model/PyPrelude.vo", "Gen/SIHelpers.vo"])
+SI_DRIVER = ("sidriver", "ExtractSi", ["simodel"], ["Model/SI.vo", "Model/PyPrelude.vo", "Gen/SIHelpers.vo", "Model/Lift.vo", "Proofs/LiftSI.vo"])
 DOMAIN_SEED = 20260922       # the domains are fixed (independent of VERIF_SEED) so that known findings are stable
 
 
